@@ -109,7 +109,7 @@ CHECKS["C17"] = dict(
     text="Two real dilation stacks, stop() on either side at any step of every canonical prefix + 2/3 arbitrary steps (all Manager states incl. FLUSHING/LONELY/ABANDONING, "
          "pending eventual-turn callbacks): stop completes (when_stopped fires, which releases Terminator.stoppedD), no listener and no connection of the stopped side is "
          "left, nothing logged; with a peer without dilation support every pending and future subchannel connect() fails with OldPeerCannotDilateError.",
-    note=_DIL_NOTE + " Terminator/Boss side of close() is C08.", ref="6/C17")
+    note=_DIL_NOTE + " The Manager-level runs use Manager.stop(); the full-stack family runs the real Boss/Terminator/Dilator (mailbox side of close() in depth is C08).", ref="6/C17")
 CHECKS["C10"] = dict(
     text="Inductive steps from symbolic pre-states (z3): Outbound.handle_ack on a queue with symbolic consecutive seqnums retires exactly the records <= ack; "
          "Manager.got_record with symbolic seqnum/watermark always acks, dispatches iff new, watermark = max. Bounded symbolic schedules over two real dilation stacks "
@@ -233,6 +233,22 @@ ADDED = {
     "C16__r6": ' After a loss the replacement connection is silent and must itself be dropped within three intervals.',
     "C19__r6": ' Completion words are compared with reference lists computed from the byte->word tables allocation draws from.',
     "C20__r6": ' An integer priority beyond the range of a double is in the domains.',
+    "C01__r7": ' One purpose is derived with several lengths, the short one first, on both sides (length honoured, bytes equal).',
+    "C02__r7": " Job replay_after_long_session: after sessions of 20..150 (thorough 300) messages the server replays one stored message (solver's choice of message and recipient); nothing is delivered twice.",
+    "C03__r7": " The WebSocket may start closing at any moment (sends then raise autobahn's Disconnected until onClose is delivered). Full-stack family (harness/fullstack.py): two real wormholes created with dilation=True run over the mailbox server model AND the in-memory TCP network at once (dilate-N phases through the real Send/Mailbox/Order/Receive/Boss path, mailbox drops and reordered delivery, w.dilate() early or late, application messages alongside): with two application messages per side, the received stream is exactly what the peer sent.",
+    "C04__r7": ' Success without an evaluated acknowledgement is a violation.',
+    "C07__r7": ' The expected handshakes come from an independent reference (own RFC 5869 HKDF), and a variant lets a second Transit object holding ANOTHER key negotiate first in the same process: what this side sends must be the handshake of its own key.',
+    "C08__r7": ' Full-stack family (harness/fullstack.py): two real wormholes created with dilation=True run over the mailbox server model AND the in-memory TCP network at once (dilate-N phases through the real Send/Mailbox/Order/Receive/Boss path, mailbox drops and reordered delivery, w.dilate() early or late, application messages alongside): close() of a dilating wormhole, also against a peer that cannot dilate, leads to exactly one closed notification with an admissible verdict and freed server resources.',
+    "C10__r7": " Full-stack family (harness/fullstack.py): two real wormholes created with dilation=True run over the mailbox server model AND the in-memory TCP network at once (dilate-N phases through the real Send/Mailbox/Order/Receive/Boss path, mailbox drops and reordered delivery, w.dilate() early or late, application messages alongside): C10's delivery oracle on the full stack (one-way with reordering server; two-way with dilate() after the versions arrived).",
+    "C11__r7": ' Full-stack family (harness/fullstack.py): two real wormholes created with dilation=True run over the mailbox server model AND the in-memory TCP network at once (dilate-N phases through the real Send/Mailbox/Order/Receive/Boss path, mailbox drops and reordered delivery, w.dilate() early or late, application messages alongside): PLEASE/HINTS/RECONNECT(ING) reordered by the server and re-ordered by Boss; one connection at a time, convergence.',
+    "C12__r7": " The LENGTHS of the frames after the handshake are the adversary's choice too (honest, empty, one byte, one byte short); loops over a symbolic length via range() are unrolled by the engine.",
+    "C13__r7": ' Full-stack family (harness/fullstack.py): two real wormholes created with dilation=True run over the mailbox server model AND the in-memory TCP network at once (dilate-N phases through the real Send/Mailbox/Order/Receive/Boss path, mailbox drops and reordered delivery, w.dilate() early or late, application messages alongside): expected_subprotocols through the real w.dilate() -> Boss -> Dilator -> Manager path.',
+    "C14__r7": ' Full-stack family (harness/fullstack.py): two real wormholes created with dilation=True run over the mailbox server model AND the in-memory TCP network at once (dilate-N phases through the real Send/Mailbox/Order/Receive/Boss path, mailbox drops and reordered delivery, w.dilate() early or late, application messages alongside): legal use including dilate() (early/late, against an old peer), close() verdict documented, nothing logged.',
+    "C15__r7": " With three producers, ANOTHER producer (possibly one still waiting for its turn in the current drain) may unregister or be closed during a producer's turn.",
+    "C16__r7": " The two ends of a link learn of its loss separately (the Leader's end as late as possible); cause accounting: every new generation the Leader starts needs a lost link or a connection that had been quiet for a ping interval.",
+    "C17__r7": ' Full-stack family (harness/fullstack.py): two real wormholes created with dilation=True run over the mailbox server model AND the in-memory TCP network at once (dilate-N phases through the real Send/Mailbox/Order/Receive/Boss path, mailbox drops and reordered delivery, w.dilate() early or late, application messages alongside): the statement itself - w.close() on a wormhole on which dilate() was called completes (real Terminator/Dilator), from every state incl. dilate() after the versions arrived, and connect() fails with OldPeerCannotDilateError against a real non-dilating wormhole.',
+    "C19__r7": ' Job tab_session: completer(text, state) driven as readline drives it over three TAB presses on symbolic lines (a, b, b again); every completion offered extends the line as it was at that TAB.',
+    "C20__r7": ' Well-formed lists contain twin entries (one target as Tor and as direct hint, symbolic types/priorities): an undialable twin must not keep the dialable one from being dialled.',
 }
 for _k, _v in ADDED.items():
     CHECKS[_k.split("__")[0]]["text"] = CHECKS[_k.split("__")[0]]["text"].rstrip() + _v
